@@ -589,6 +589,30 @@ feature dist {
 }
 
 /// A contextual substitution rule gets debug info.
+// A class of one glyph in a later input position of a rule without backtrack or
+// lookahead used to panic when the format 1 subtable was built.
+#[test]
+fn contextual_rule_with_singleton_class_input() {
+    let compilation = compile_fea(
+        "\
+lookup L {
+    sub a by x;
+} L;
+
+lookup M {
+    sub b by y;
+} M;
+
+feature test {
+    sub a' lookup L [b]' lookup M;
+} test;
+",
+        "contextual_singleton_class_input",
+    );
+    let gsub = compilation.gsub.as_ref().unwrap();
+    assert_eq!(gsub.lookup_list.lookups.len(), 3);
+}
+
 #[test]
 fn debg_contextual_substitution() {
     let json = compile_debg(
